@@ -15,7 +15,7 @@
 
 """Handling for action callbacks."""
 from types import FrameType
-from typing import List
+from typing import List, Optional
 
 import deep.logging
 from deep.api.tracepoint.trigger import Location
@@ -32,7 +32,8 @@ class CallbackContext(Location, ActionCallback):
     to close when the line/method completes.
     """
 
-    def __init__(self, event: str, filename: str, line: int, name: str, callbacks: List['ActionCallback']):
+    def __init__(self, event: str, filename: str, line: int, name: str, callbacks: List['ActionCallback'],
+                 frame: Optional[FrameType] = None):
         """Create new callback context."""
         super().__init__(Location.Position.END)
         self.__event = event
@@ -40,6 +41,7 @@ class CallbackContext(Location, ActionCallback):
         self.__function_name = name
         self.__line = line
         self.__callbacks = callbacks
+        self.__frame = frame
 
     def at_location(self, event: str, file: str, line: int, function_name: str, frame: FrameType) -> bool:
         """
@@ -56,10 +58,24 @@ class CallbackContext(Location, ActionCallback):
         if file != self.__filename or function_name != self.__function_name:
             return False
 
+        # the file and function name are the same, but this can be another call of the function (recursion), or another
+        # function with the same name (e.g. super().method()). While the call that registered this callback is still
+        # running further up the stack, only its own events complete it. (If it is not on this stack we cannot tell.)
+        if self.__frame is not None and frame is not self.__frame and self.__called_from_registering_frame(frame):
+            return False
+
         if self.__event == 'line':
             return self.__check_at_next_line(event, file, function_name)
         else:
             return self.__check_at_method_end(event)
+
+    def __called_from_registering_frame(self, frame: FrameType) -> bool:
+        caller = frame.f_back
+        while caller is not None:
+            if caller is self.__frame:
+                return True
+            caller = caller.f_back
+        return False
 
     def process(self, ctx: 'TriggerContext', event: str, frame: FrameType, arg: any):
         """
